@@ -5,10 +5,11 @@ import sys
 from pathlib import Path
 sys.path.insert(0, str(Path(__file__).parent))
 from harness import registry
+registry.load()
 
 m = {
     "version": 1,
-    "setup_cmd": "cd lean && lake build Abverif driver",
+    "setup_cmd": "python3 tools_setup.py",
     "hooks": {
         "guard": "AUTOBAHN_VERIF",
         "enable": "no source hooks are needed: harnesses subclass the real classes and inject transports, clocks, RNGs and freshly compiled NVX modules from outside; AUTOBAHN_VERIF=1 is exported to harness workers for future use",
